@@ -84,7 +84,9 @@ func (f *timersFam) setup(w *World) {
 				simrt.Yield(-5)
 				w.recx(Ev{Kind: "stop-ret", N: int64(i), S: "final"})
 			}
-			if ts.Timers[i].PeriodMs > maxP {
+			// (a long-period timer is not waited for: cancelling it must dismiss its goroutine at once, not at
+			// the instant it would have been due)
+			if ts.Timers[i].PeriodMs > maxP && ts.Timers[i].PeriodMs < 1000 {
 				maxP = ts.Timers[i].PeriodMs
 			}
 		}
@@ -367,8 +369,18 @@ func GenTimers(prop string, seed uint64, thorough bool) *Scenario {
 	end := 0
 	for i := 0; i < nt; i++ {
 		sp := TimerSpec{Interval: g.p(0.4), PeriodMs: g.pick(1, 2, 5, 10, 20, 50)}
+		long := g.p(0.15)
+		if long {
+			// a timer that is armed and cancelled / refreshed long before it is due (the heartbeat timers of a
+			// session live like that): nothing of it may stay behind until the due instant
+			sp.PeriodMs = g.pick(5000, 60000)
+		}
 		if g.p(0.3) {
-			sp.CbSleepMs = g.pick(1, sp.PeriodMs/2+1, sp.PeriodMs, 2*sp.PeriodMs+1)
+			base := sp.PeriodMs
+			if base > 50 {
+				base = 50
+			}
+			sp.CbSleepMs = g.pick(1, base/2+1, base, 2*base+1)
 		}
 		if g.p(0.25) {
 			sp.SelfCancelAt = g.pick(1, 1, 2, 3)
@@ -386,6 +398,9 @@ func GenTimers(prop string, seed uint64, thorough bool) *Scenario {
 			if g.p(0.3) {
 				at = last + g.rng(0, sp.PeriodMs)
 			}
+			if long {
+				at = last + g.pick(0, 0, 1, 3, 20)
+			}
 			if at < t0 {
 				at = t0
 			}
@@ -402,7 +417,7 @@ func GenTimers(prop string, seed uint64, thorough bool) *Scenario {
 				end = at
 			}
 		}
-		if t0+5*sp.PeriodMs > end {
+		if !long && t0+5*sp.PeriodMs > end {
 			end = t0 + 5*sp.PeriodMs
 		}
 	}
